@@ -201,27 +201,36 @@ def murmur64(data, seed):
 
 @model('_ZSt11_Hash_bytesPKvmm')
 def m_hash(s, av):
-    """std::hash of a byte string: concrete contents get the real libstdc++ value; symbolic contents get an uninterpreted
-    function of (length, content) that agrees with the real value on every concrete content hashed on this path
-    (equal contents => equal hashes; collisions and orderings between different contents are the solver's choice)."""
+    """std::hash of a byte string.  Concrete contents get the real libstdc++ value.  Symbolic contents get a fresh 64-bit
+    variable constrained (Ackermann expansion, pure bit-vector) to be a function of (length, content): it equals the value of
+    every earlier call with equal content on this path, symbolic or concrete, and later concrete calls are tied to it the same
+    way.  Collisions and orderings between different contents are the solver's choice."""
     a, n, seed = av
     n = s.concretize(n, 'hash length'); a = s.concretize(a, 'address'); seed = s.concretize(seed, 'hash seed')
     bs = [s.load(a + i, 1) for i in range(n)]
+    syms = s.extra.get('hash_syms', ()); concs = s.extra.get('hash_concs', ())
     if n == 0 or all(is_c(b) for b in bs):
         h = murmur64(bs, seed)
-        if n:
-            H = z3.Function('H%d' % n, z3.BitVecSort(8 * n), z3.BitVecSort(64))
-            arg = z3.BitVecVal(int.from_bytes(bytes(bs), 'big'), 8 * n)
-            ax = H(arg) == z3.BitVecVal(h, 64)
-            known = s.extra.get('hash_axioms', ())
-            key = (n, bytes(bs))
-            if key not in known:
-                s.extra['hash_axioms'] = known + (key,)
-                if s.concrete is None: s.add(ax)
+        key = (n, bytes(bs))
+        if n and key not in [c[0] for c in concs]:
+            s.extra['hash_concs'] = concs + ((key, h),)
+            if s.concrete is None:
+                cval = z3.BitVecVal(int.from_bytes(bytes(bs), 'big'), 8 * n)
+                for (m, arg, hv) in syms:
+                    if m == n: s.add(z3.Implies(arg == cval, hv == z3.BitVecVal(h, 64)))
         return h
     arg = z3.Concat(*[bv(b, 8) for b in bs]) if n > 1 else bv(bs[0], 8)
-    H = z3.Function('H%d' % n, z3.BitVecSort(8 * n), z3.BitVecSort(64))
-    return H(arg)
+    for (m, parg, hv) in syms:
+        if m == n and parg.eq(arg): return hv
+    hv = z3.BitVec('hash_%d' % len(syms), 64)
+    cons = []
+    for (m, parg, phv) in syms:
+        if m == n: cons.append(z3.Implies(parg == arg, phv == hv))
+    for ((m, cb), h) in concs:
+        if m == n: cons.append(z3.Implies(arg == z3.BitVecVal(int.from_bytes(cb, 'big'), 8 * n), hv == z3.BitVecVal(h, 64)))
+    s.extra['hash_syms'] = syms + ((n, arg, hv),)
+    if cons: s.add(z3.And(*cons) if len(cons) > 1 else cons[0])
+    return hv
 
 # ---------------------------------------------------------------- std::_Rb_tree out-of-line helpers (unbalanced BST model on the libstdc++ node layout)
 # node: +0 color(i32) +8 parent +16 left +24 right ; header: parent=root, left=leftmost, right=rightmost
